@@ -278,7 +278,8 @@ Theorem cli_exits_table :
   run_cli false (script_of [(SConstraints, EValueError)]) = mkOut (Uncaught EValueError) true /\
   run_cli false (script_of [(SExtraParams, ESystemExit)]) = mkOut (Uncaught ESystemExit) true /\
   run_cli false (script_of [(SBuildRepo, EValueError)]) = mkOut (Exit 1) true /\
-  run_cli false (script_of [(SBuildRepo, ERepoInit)]) = mkOut (Exit 1) true.
+  run_cli false (script_of [(SBuildRepo, ERepoInit)]) = mkOut (Exit 1) true /\
+  run_cli false (script_of [(SBuildRepo, EOSError)]) = mkOut (Exit 1) true.
 Proof. vm_compute. repeat split. Qed.
 
 (* ---- every failure a handler covers ends in a diagnostic and exit status 1 (C09's demand on
@@ -295,30 +296,32 @@ Proof.
 Qed.
 
 (* which failures of the classes the code knows (ValueError, RepositoryInitializationError,
-   NoCandidateException, MetadataError) are NOT turned into a diagnostic: a plain ValueError of
+   NoCandidateException, MetadataError, OSError - the latter handled around build_repo only) are NOT turned into a diagnostic: a plain ValueError of
    the extra-parameter stage (-e path), of --constraints and of perform_compile itself, and everything after the try
    (setup-requires downloads with --wheel-dir, writing) *)
 Theorem cli_traceback_pairs_table :
   cli_traceback_pairs false =
-    [(SExtraParams, EValueError); (SConstraints, EValueError); (SCompile, EValueError);
-     (SWrite, EValueError); (SWrite, ERepoInit); (SWrite, ENoCandidate); (SWrite, EMetadata)] /\
+    [(SInputs, EOSError); (SExtraParams, EValueError); (SExtraParams, EOSError);
+     (SConstraints, EValueError); (SConstraints, EOSError); (SCompile, EValueError); (SCompile, EOSError);
+     (SWrite, EValueError); (SWrite, ERepoInit); (SWrite, ENoCandidate); (SWrite, EMetadata); (SWrite, EOSError)] /\
   cli_traceback_pairs true =
-    [(SExtraParams, EValueError); (SConstraints, EValueError); (SCompile, EValueError);
-     (SSetupReqs, EValueError); (SSetupReqs, ERepoInit); (SSetupReqs, ENoCandidate); (SSetupReqs, EMetadata);
-     (SWrite, EValueError); (SWrite, ERepoInit); (SWrite, ENoCandidate); (SWrite, EMetadata)].
+    [(SInputs, EOSError); (SExtraParams, EValueError); (SExtraParams, EOSError);
+     (SConstraints, EValueError); (SConstraints, EOSError); (SCompile, EValueError); (SCompile, EOSError);
+     (SSetupReqs, EValueError); (SSetupReqs, ERepoInit); (SSetupReqs, ENoCandidate); (SSetupReqs, EMetadata); (SSetupReqs, EOSError);
+     (SWrite, EValueError); (SWrite, ERepoInit); (SWrite, ENoCandidate); (SWrite, EMetadata); (SWrite, EOSError)].
 Proof. vm_compute. split; reflexivity. Qed.
 
 (* in particular: an unusable repository argument (build_repo raising ValueError or
    RepositoryInitializationError) and a bad input argument are diagnostics *)
 Theorem cli_unusable_repository_is_diagnostic (user : bool) (sc : script) (e : ecls) :
   sc SInputs = None -> sc SExtraParams = None -> sc SConstraints = None ->
-  sc SBuildRepo = Some e -> (e = EValueError \/ e = ERepoInit) ->
+  sc SBuildRepo = Some e -> (e = EValueError \/ e = ERepoInit \/ e = EOSError) ->
   o_end (run_cli user sc) = Exit 1.
 Proof.
   intros H1 H2 H3 H4 HE.
   apply (cli_covered_failures_exit_1 user sc SBuildRepo e).
   - destruct user; cbn; rewrite H1, H2, H3, H4; reflexivity.
-  - destruct HE; subst; destruct user; reflexivity.
+  - destruct HE as [HE|[HE|HE]]; subst; destruct user; reflexivity.
 Qed.
 
 Example cli_covered_nontrivial :
